@@ -204,7 +204,7 @@ var checkSpecs = map[string]*checkSpec{
 		},
 		stubs: append([]string{"reedsolomon -> abstract MDS codec", "sort.Slice -> insertion sort calling the real less closure symbolically"}, commonStubs...),
 		bounds: map[string]string{
-			"quick":    "stability and detection: one decode step with a fully symbolic sequence id for (d,p) in {(1,1),(2,1),(2,2),(3,2)}; period detector: windows of 3..6 consecutive ids each present 0/1/2 times (all 3^n patterns), both insertion orders, every phase, symbolic start id, senders as above; clean windows of 2S+2 with fresh and wrapped (258-entry) sample ring, and for (10,3),(20,10),(128,127),(254,1),(1,254) at 5 boundary phases (for d+p=255 the 258-entry window cannot hold 2S+2 samples: only "never a wrong ratio" is asserted there); adoption+recovery for 4 sender/receiver pairs at positions 0, ~10^6, 2^31 over 4 groups",
+			"quick":    "stability and detection: one decode step with a fully symbolic sequence id for (d,p) in {(1,1),(2,1),(2,2),(3,2)}; period detector: windows of 3..6 consecutive ids each present 0/1/2 times (all 3^n patterns), both insertion orders, every phase, symbolic start id, senders as above; clean windows of 2S+2 with fresh and wrapped (258-entry) sample ring, and for (10,3),(20,10),(128,127),(254,1),(1,254) at 5 boundary phases (for d+p=255 the 258-entry window cannot hold 2S+2 samples: only never-a-wrong-ratio is asserted there); adoption+recovery for 4 sender/receiver pairs at positions 0, ~10^6, 2^31 over 4 groups",
 			"thorough": "windows up to 8, ratios up to (4,2)",
 		},
 		outside: "the literal 258+2(d+p) packet count for every d+p <= 255 under arbitrary pre-convergence faults; ratios with d+p > 6",
